@@ -676,6 +676,20 @@ class _Literals(ast.NodeTransformer):
             return ast.copy_location(ast.List(node.left.elts + node.right.elts, ast.Load()), node)
         return node
 
+    def visit_Compare(self, node):
+        self.generic_visit(node)
+        # `K in (x, y)` with a constant K and a literal tuple/list -> `x == K or y == K`
+        if len(node.ops) == 1 and isinstance(node.ops[0], (ast.In, ast.NotIn)) and isinstance(node.left, ast.Constant) \
+                and isinstance(node.comparators[0], (ast.Tuple, ast.List)) and 1 <= len(node.comparators[0].elts) <= 4 \
+                and not any(isinstance(e, (ast.Starred, ast.Constant)) for e in node.comparators[0].elts):
+            import copy as _c
+            cmps = [ast.Compare(e, [ast.Eq()], [_c.deepcopy(node.left)]) for e in node.comparators[0].elts]
+            out = cmps[0] if len(cmps) == 1 else ast.BoolOp(ast.Or(), cmps)
+            if isinstance(node.ops[0], ast.NotIn):
+                out = ast.UnaryOp(ast.Not(), out)
+            return ast.copy_location(out, node)
+        return node
+
     def visit_AnnAssign(self, node):
         self.generic_visit(node)
         if node.value is not None and isinstance(node.target, ast.Name) and node.simple:
@@ -704,6 +718,17 @@ class _Literals(ast.NodeTransformer):
                     continue
             merged.append(a)
             i += 1
+        body = merged
+        # `t = A if c else B` -> `if c: t = A else: t = B`
+        merged = []
+        for a in body:
+            if isinstance(a, ast.Assign) and len(a.targets) == 1 and isinstance(a.value, ast.IfExp) and _pure_chain(a.targets[0]):
+                import copy as _c
+                merged.append(ast.copy_location(ast.If(a.value.test,
+                                                       [ast.copy_location(ast.Assign([_c.deepcopy(a.targets[0])], a.value.body), a)],
+                                                       [ast.copy_location(ast.Assign([_c.deepcopy(a.targets[0])], a.value.orelse), a)]), a))
+            else:
+                merged.append(a)
         body = merged
         for s in body:
             if isinstance(s, ast.Assign) and len(s.targets) == 1 and isinstance(s.targets[0], ast.Tuple) \
